@@ -130,6 +130,35 @@ Section Comparators.
     && ordered_by (fun g h => less (map snd ks) (head_vals ks inp g) (head_vals ks inp h)) gs
     && check_stable ks inp out.
 
+  (* What sort.SliceStable guarantees WHATEVER the callback (natural-order keys: the callback need not be a strict weak
+     order, C09_natural_transitive_refuted): on at most 20 elements it is a plain insertion sort (sort.stable: blockSize 20),
+     which never leaves an element strictly less than its immediate predecessor. *)
+  Fixpoint adjacent_by {A} (lt : A -> A -> bool) (l : list A) : bool :=
+    match l with
+    | x :: t => match t with y :: _ => negb (lt y x) | [] => true end && adjacent_by lt t
+    | [] => true
+    end.
+  Definition check_sort_adj (ks : list (bytes * sflag)) (inp out : list record) : bool :=
+    let keyf := sort_keyf ks in
+    let gs := dkeys keyf out in
+    records_eqb out (sort_output ks inp gs)
+    && (List.length gs =? List.length (dkeys keyf inp))%nat
+    && forallb (fun g => mem g gs) (dkeys keyf inp)
+    && adjacent_by (fun g h => less (map snd ks) (head_vals ks inp g) (head_vals ks inp h)) gs.
+
+  (* sort.SliceStable on n <= 20 elements IS insertionSort_func (sort/zsortfunc.go: stable_func, blockSize 20):
+       for i := a+1; i < b; i++ { for j := i; j > a && less(j, j-1); j-- { swap(j, j-1) } }
+     -- a function of the callback alone, strict weak order or not.  [ins_rev] inserts into the reversed sorted prefix. *)
+  Fixpoint ins_rev {A} (lt : A -> A -> bool) (x : A) (rp : list A) : list A :=
+    match rp with
+    | [] => [x]
+    | y :: rp' => if lt x y then y :: ins_rev lt x rp' else x :: rp
+    end.
+  Definition isort {A} (lt : A -> A -> bool) (l : list A) : list A := rev (fold_left (fun rp x => ins_rev lt x rp) l []).
+  (* the verb as a function, for at most 20 distinct groups *)
+  Definition sort_model (ks : list (bytes * sflag)) (inp : list record) : list record :=
+    sort_output ks inp (isort (fun g h => less (map snd ks) (head_vals ks inp g) (head_vals ks inp h)) (dkeys (sort_keyf ks) inp)).
+
   (* DSL sort(array, flags | function): elements are single-field records (name, value); equal-comparing elements may
      come out in any order, so there is no grouping: permutation + no later element strictly less than an earlier one *)
   Definition field_val (name : bytes) (r : record) : bytes := match get name r with Some v => v | None => [] end.
@@ -161,8 +190,9 @@ Section Comparators.
 End Comparators.
 
 (* ------------------------------------------------------------------ github.com/facette/natsort Compare, modelled:
-   chunks = maximal runs of ASCII digits / non-digits (regexp (\d+|\D+)); digit chunks compare as integers
-   (strconv.Atoi; chunks longer than 18 digits are outside the model), other chunks bytewise. *)
+   chunks = maximal runs of ASCII digits / non-digits (regexp (\d+|\D+), RE2: \d is [0-9] only, \D any other byte incl.
+   newline); two chunks compare as integers when strconv.Atoi succeeds on BOTH (a digit run whose value exceeds
+   2^63-1 makes Atoi fail with a range error; leading zeros are harmless), otherwise bytewise. *)
 Definition is_dig (c : ascii) : bool := in_range "0" "9" c.
 Fixpoint take_run (d : bool) (s : bytes) : bytes * bytes :=
   match s with
@@ -176,7 +206,10 @@ Fixpoint chunkify (fuel : nat) (s : bytes) : list bytes :=
   end.
 Definition chunk_num (c : bytes) : option Z :=
   match c with
-  | d :: _ => if is_dig d then Some (fold_left (fun acc x => acc * 10 + (Z.of_N (code x) - 48)) c 0) else None
+  | d :: _ => if is_dig d
+              then let v := fold_left (fun acc x => acc * 10 + (Z.of_N (code x) - 48)) c 0 in
+                   if v <? 2 ^ 63 then Some v else None          (* strconv.Atoi: ErrRange beyond int64 *)
+              else None
   | [] => None
   end.
 Fixpoint nat_chunks_less (ca cb : list bytes) : bool :=
